@@ -65,7 +65,7 @@ class PropertyRun(object):
         vcs = []
         for r in results:
             if r.get('fault'):
-                self.faults.append('%s: %s' % (r['unit'], r['error']))
+                self.faults.append('%s: %s' % (r['unit'], ' | '.join(r['error'].strip().splitlines()[-3:])))
             for o in r['obligations']:
                 vcs.append(o)
         # aggregate by (unit, name)
@@ -125,7 +125,7 @@ class PropertyRun(object):
                 twin = mod.twin(tier, self.seed)
             except Exception:
                 import traceback
-                self.faults.append('twin: ' + traceback.format_exc())
+                self.faults.append('twin: ' + ' | '.join(traceback.format_exc().strip().splitlines()[-4:]))
         seen_keys = set()
         for v in twin.get('violations', []):
             fid = v.get('finding')
